@@ -164,6 +164,33 @@ bool prop(Tape &t, Report &R) {
       c.addNet(cs, xo, yo, 1.0f + (t.next() % 4));
     }
   }
+  // many far-reaching nets: the total wirelength leaves the 32-bit range although every
+  // coordinate and every single net span is far inside it (bulk derived from one word)
+  if (scale == 2 && n >= 2 && t.flip(1, 4)) {
+    uint32_t word = t.next();
+    int cnt = 600 + (int)(word % 1200);
+    Tape big = expandTape(word, 8 * (size_t)cnt);
+    for (int k = 0; k < cnt; ++k) {
+      int deg = 2 + (int)(big.next() % 2);
+      std::vector<int> cs, xo, yo;
+      for (int q = 0; q < deg; ++q) {
+        int cell = (int)(big.next() % (uint32_t)n);
+        cs.push_back(cell);
+        xo.push_back((int)(big.next() % (uint32_t)(w[cell] + 1)));
+        yo.push_back((int)(big.next() % (uint32_t)(h[cell] + 1)));
+      }
+      if (viaSet) {
+        pc.insert(pc.end(), cs.begin(), cs.end());
+        pxo.insert(pxo.end(), xo.begin(), xo.end());
+        pyo.insert(pyo.end(), yo.begin(), yo.end());
+        lim.push_back((int)pc.size());
+        wt.push_back(1.0f);
+      } else {
+        c.addNet(cs, xo, yo, 1.0f);
+      }
+    }
+    R.classify("nets:many(600+)");
+  }
   if (viaSet) c.setNets(lim, pc, pxo, pyo, wt);
   R.classify(viaSet ? "nets:setNets(with empty nets)" : "nets:addNet");
   R.classify(scale == 0 ? "scale:small" : scale == 1 ? "scale:medium" : "scale:2^22");
